@@ -676,6 +676,76 @@ mod oracle {
         }
     }
 
+    // ---------------------------------------------------------------- C10 ------------
+    /// a target that is slow for one particular chain (identified by its first coordinate's sign pattern)
+    #[derive(Clone)]
+    struct SlowFor {
+        slow_below: f64,
+    }
+    impl Target<f64, f64> for SlowFor {
+        fn unnorm_logp(&self, p: &[f64]) -> f64 {
+            if p[0] < self.slow_below {
+                std::thread::sleep(std::time::Duration::from_micros(300));
+            }
+            -0.5 * (p[0] - p[0].round()) * (p[0] - p[0].round())
+        }
+    }
+    #[test]
+    fn oracle_c10_run_progress_returns_the_draws_of_run() {
+        use mini_mcmc::stats::RunStats;
+        // MH: many chains (more than the 5 progress bars), the first chain the slowest
+        for n_chains in [1usize, 2, 7] {
+            let init: Vec<Vec<f64>> = (0..n_chains).map(|c| vec![100.0 * c as f64]).collect();
+            let mk = || MetropolisHastings::new(SlowFor { slow_below: 50.0 }, IsotropicGaussian::<f64>::new(0.1), init.clone()).seed(3);
+            let a = mk().run(6, 2).unwrap();
+            let (b, stats) = mk().run_progress(6, 2).unwrap();
+            if a != b {
+                witness(format!("{{\"oracle\":\"c10\",\"sampler\":\"mh\",\"chains\":{n_chains},\"what\":\"run_progress returned draws that differ from run (values or chain order)\"}}"));
+            }
+            let want = RunStats::from(b.view());
+            let same = |x: f32, y: f32| x == y || (x.is_nan() && y.is_nan());
+            if !(same(stats.rhat.min, want.rhat.min) && same(stats.rhat.max, want.rhat.max) && same(stats.ess.mean, want.ess.mean) && same(stats.ess.median, want.ess.median)) {
+                witness(format!("{{\"oracle\":\"c10\",\"sampler\":\"mh\",\"chains\":{n_chains},\"what\":\"the returned diagnostics differ from those computed from the returned draws\"}}"));
+            }
+        }
+        // Gibbs with deterministic conditionals
+        let g = || GibbsSampler::new(Zero, vec![vec![1.0, 2.0]; 3]).set_seed(1);
+        let a = g().run(4, 1).unwrap();
+        let (b, _) = g().run_progress(4, 1).unwrap();
+        if a != b {
+            witness("{\"oracle\":\"c10\",\"sampler\":\"gibbs\",\"what\":\"run_progress differs from run\"}".to_string());
+        }
+    }
+    mod progress_tensor {
+        use super::*;
+        use burn::backend::{Autodiff, NdArray};
+        use mini_mcmc::distributions::DiffableGaussian2D;
+        use mini_mcmc::hmc::HMC;
+        use mini_mcmc::nuts::NUTS;
+        #[test]
+        fn oracle_c10_hmc_and_nuts_progress_match_run() {
+            type B = Autodiff<NdArray>;
+            let target = || DiffableGaussian2D::new([0.0f32, 1.0], [[4.0, 2.0], [2.0, 3.0]]);
+            let init = vec![vec![0.0f32, 0.0], vec![3.0, -1.0], vec![-2.0, 2.0]];
+            let hmc = || HMC::<f32, B, _>::new(target(), init.clone(), 0.1, 3).set_seed(8);
+            let a = hmc().run(5, 2).to_data().to_vec::<f32>().unwrap();
+            let (b, _) = hmc().run_progress(5, 2).unwrap();
+            if a != b.to_data().to_vec::<f32>().unwrap() {
+                witness("{\"oracle\":\"c10\",\"sampler\":\"hmc\",\"what\":\"run_progress differs from run\"}".to_string());
+            }
+            // NUTS: run_progress is the run trajectory shifted by its one-draw offset
+            let nuts = || NUTS::<f32, B, _>::new(target(), init.clone(), 0.8).set_seed(8);
+            let a = nuts().run(6, 2).to_data().to_vec::<f32>().unwrap(); // [3, 6, 2]
+            let (b, _) = nuts().run_progress(5, 2).unwrap();
+            let b = b.to_data().to_vec::<f32>().unwrap(); // [3, 5, 2]
+            for c in 0..3 {
+                if a[c * 12 + 2..(c + 1) * 12] != b[c * 10..(c + 1) * 10] {
+                    witness(format!("{{\"oracle\":\"c10\",\"sampler\":\"nuts\",\"chain\":{c},\"what\":\"run_progress is not the run trajectory shifted by one draw\"}}"));
+                }
+            }
+        }
+    }
+
     // ---------------------------------------------------------------- C16 ------------
     #[test]
     fn oracle_c16_categorical() {
